@@ -121,11 +121,11 @@ PROPS = {
  ),
 
  "C14": dict(
-  obligations=["ObSchema", "ObWrites"],
+  obligations=["ObSchema", "ObWrites", "ObRanges"],
   families=[dict(name="pure", model="val", quick=1200, thorough=40000, twice=True),
             dict(name="purego", model="marshal", quick=1500, thorough=40000, twice=True)],
   rule="cases of the val/uneval/d7/ref/dyn/repr generators (kind in the note); per case: reflection snapshot (every field) of the Schema, of every document the caching loader handed out and of every instance before and after; Resolve twice on the same Schema plus once on a fresh Unmarshal, verdict vectors of all three and of a repeated run compared; 4 further runs on instances rebuilt with new maps in shuffled insertion order (each range draws a new iteration order); Marshal before, between and after plus 3 repeats; family purego: Schema values built in Go (PropertyOrder incl. strangers/duplicates, Extra, all subschema-holding fields) snapshotted before the package sees them, Marshal x5, Resolve, CloneSchemas, Marshal again, document and key order compared with the model; each family is run in two processes (other hash seeds) and the observation files are compared byte for byte (verdicts, loader calls, hash of the marshalled bytes); verdicts also compared with the model; non-trivial as in the underlying family",
-  partial="independence of the verdict from the iteration order of the schema's maps is sampled (repeated runs, second process), not proved; independence from the order of instance maps, from the seed and Marshal's independence of map order are theorems; purity is by construction in the model and decided by snapshots on the package",
+  partial="independence of the verdict from the iteration order of the schema's maps (spec_eval_srel, with the obligation that validate ranges over no other map), from the order of instance maps, from the seed, and Marshal's independence of map order are theorems; that Resolve builds related environments from schemas that differ in map order is not proved (its tables are keyed by sorted children); purity is by construction in the model and decided by snapshots on the package",
   trusted_base=["reflection snapshot walks every struct field, map entry and slice element (unexported fields included)", "Go randomises map iteration per range statement and hash seeds per process"],
   assumptions=[],
  ),
